@@ -1249,6 +1249,8 @@ def audit(out: OutputBuffer, aconf: AuditConf, sshv: Optional[int] = None, print
         try:
             packet_type, payload = s.read_packet(sshv)
         except SSH_Socket.InvalidPacketException as e:
+            if print_target:  # When scanning a list of targets, the error block names its target.
+                output(out, aconf, banner, header, print_target=True)
             out.fail(str(e))
 
             # As with connection errors: when running against multiple targets, only this target fails.  Otherwise, write the error message to the console and exit.
@@ -1281,13 +1283,15 @@ def audit(out: OutputBuffer, aconf: AuditConf, sshv: Optional[int] = None, print
                       'instead received unknown message ({2})'
                 err = fmt.format(err_pair[0], err_pair[1], packet_type)
     if err is not None:
-        output(out, aconf, banner, header)
+        output(out, aconf, banner, header, print_target=print_target)  # When scanning a list of targets, the error block names its target, too.
         out.fail(err)
         return exitcodes.CONNECTION_ERROR
     if sshv == 1:
         try:
             pkm = SSH1_PublicKeyMessage.parse(payload)
         except Exception:
+            if print_target:  # When scanning a list of targets, the error block names its target.
+                output(out, aconf, banner, header, print_target=True)
             out.fail("Failed to parse server's public key message.  Stack trace:\n%s" % str(traceback.format_exc()))
             return exitcodes.CONNECTION_ERROR
         program_retval = output(out, aconf, banner, header, pkm=pkm, print_target=print_target)
@@ -1296,6 +1300,8 @@ def audit(out: OutputBuffer, aconf: AuditConf, sshv: Optional[int] = None, print
             kex = SSH2_Kex.parse(out, payload)
             out.d(str(kex))
         except Exception:
+            if print_target:  # When scanning a list of targets, the error block names its target.
+                output(out, aconf, banner, header, print_target=True)
             out.fail("Failed to parse server's kex.  Stack trace:\n%s" % str(traceback.format_exc()))
             return exitcodes.CONNECTION_ERROR
 
